@@ -11,8 +11,8 @@ RULE = ('score tensors N(1-8) x C(2-40) x T(1-60) built from a chosen arg-max pa
 ASSUMPTIONS = ['for exact arg-max ties (class exact_ties: quantised outputs) only the agreement of the engine decoder and the stand-alone decoder is required (the statement gives no tie rule for the reference collapse); frames of engine output with margin < 1e-4 are skipped as ambiguous elsewhere',
                'blank is the last class; 3-D tensors only (the 2-D branch of the engine decoder is not reachable from the repository)']
 N = {'quick': 5000, 'thorough': 300000}
-CLASSES = ['random', 'lead_trail_blank', 'all_blank', 'repeats_split', 'first_nonblank', 'last_class', 'identical_rows', 'different_rows', 'single_frame', 'engine', 'exact_ties', 'large_alphabet', 'near_ties']
-REQUIRED = ['alphabets_over_256_classes', 'near_tie_lines', 'earlier_run_ocr_results_rechecked', 'separator_lines', 'run_ocr_logits_compared', 'tie_lines', 'engine_lines', 'standalone_lines', 'filtration_lines', 'run_ocr_lines']
+CLASSES = ['random', 'lead_trail_blank', 'all_blank', 'repeats_split', 'first_nonblank', 'last_class', 'identical_rows', 'different_rows', 'single_frame', 'engine', 'exact_ties', 'large_alphabet', 'near_ties', 'engine_near_ties']
+REQUIRED = ['near_tie_engine_lines', 'alphabets_over_256_classes', 'near_tie_lines', 'earlier_run_ocr_results_rechecked', 'separator_lines', 'run_ocr_logits_compared', 'tie_lines', 'engine_lines', 'standalone_lines', 'filtration_lines', 'run_ocr_lines']
 
 
 def setup(ctx):
@@ -24,6 +24,29 @@ def setup(ctx):
     ctx.torch, ctx.poe, ctx.decoders, ctx.cc = torch, poe, decoders, char_confidences
     ctx.chars = [chr(0x61 + i) for i in range(7)] + [' ']
     ctx.eng, ctx.net = stubs.load_ocr_engine(ctx.tmpdir + '/eng', ctx.chars, H=16, seed=ctx.seed, blank_bias=1.5, wscale=1.2)
+    # a network whose class scores are small and nearly equal: every class sees the same feature, scaled by (1 + c * 1e-6), so the best two scores of a
+    # frame differ by about 1e-9 at a magnitude of 1e-3 - distinct float32 numbers whose order any further arithmetic (a soft-max, a cast) may destroy
+    import json
+    import os
+
+    class NearTieNet(torch.nn.Module):
+        def __init__(self, C):
+            super().__init__()
+            g = torch.Generator().manual_seed(11)
+            self.conv = torch.nn.Conv2d(3, 1, kernel_size=(16, 4), stride=(1, 4), bias=False)
+            with torch.no_grad():
+                self.conv.weight.copy_(torch.randn(self.conv.weight.shape, generator=g) * 1e-4)
+            self.gain = torch.nn.Parameter(1.0 + torch.arange(C, dtype=torch.float32) * 1e-6, requires_grad=False)
+
+        def forward(self, x):
+            y = self.conv(x)[:, :, 0, :]                      # N, 1, T
+            return y * self.gain[None, :, None]               # N, C, T
+    d = ctx.tmpdir + '/eng_nt'
+    os.makedirs(d, exist_ok=True)
+    ctx.net_nt = NearTieNet(len(ctx.chars) + 1).eval()
+    torch.jit.save(torch.jit.script(ctx.net_nt), d + '/ocr.pt.cpu')
+    json.dump({'line_px_height': 16, 'line_vertical_scale': 1.0, 'checkpoint': 'ocr.pt', 'characters': list(ctx.chars), 'net_name': 'near-tie stub'}, open(d + '/ocr.json', 'w'))
+    ctx.eng_nt = poe.PytorchEngineLineOCR(d + '/ocr.json', torch.device('cpu'))
 
 
 def collapse(path, blank, chars):
@@ -37,7 +60,7 @@ def collapse(path, blank, chars):
 
 def gen(rng, i, ctx):
     cls = CLASSES[i % len(CLASSES)]
-    if cls == 'engine':
+    if cls in ('engine', 'engine_near_ties'):
         n = int(rng.integers(1, 6))
         w = int(rng.integers(1, 40)) * 4
         data = rng.integers(0, 256, size=(n, 16, w, 3)).astype(np.uint8)
@@ -155,6 +178,25 @@ def check_tensor(sc, chars_with_blank_engine, chars, mon, ctx, expected_paths=No
 
 
 def check(case, mon, ctx):
+    if case['cls'] == 'engine_near_ties':
+        # run_ocr of an engine whose network emits nearly equal scores: the text is the collapse of the arg-max path of the RETURNED logits
+        # (float32 numbers compared as they are; only frames whose best two returned values are bit-equal are ambiguous)
+        decoded, logits = ctx.eng_nt.run_ocr(case['data'])
+        chars = list(ctx.eng_nt.characters[:-1])
+        C = logits.shape[2]
+        for n in range(logits.shape[0]):
+            lg = logits[n]                                   # T, C
+            srt = np.sort(lg, axis=1)
+            if (srt[:, -1] == srt[:, -2]).any():
+                mon.skip_ambiguous('exact-tie')
+                continue
+            mon.count('near_tie_engine_lines')
+            exp = collapse(lg.argmax(axis=1), C - 1, chars)
+            if decoded[n] != exp:
+                mon.violation('run_ocr-greedy', {'site': 'network with nearly equal class scores', 'line': n, 'got': decoded[n], 'expected': exp,
+                              'smallest_margin': float((srt[:, -1] - srt[:, -2]).min())})
+        mon.mark_nontrivial({'near_tie_engine': case['data'].shape})
+        return
     if case['cls'] == 'engine':
         eng = ctx.eng
         decoded, logits = eng.run_ocr(case['data'])   # logits: N, T, C
